@@ -16,7 +16,7 @@ RULE = (
     "container boxes must be the union of the rendered children's boxes. Non-trivial = the geometry has a curved segment or a transform."
 )
 BUDGET = {"quick": 40000, "thorough": 1500000}
-TIME_CAP = {"quick": 70, "thorough": 1500}
+TIME_CAP = {"quick": 240, "thorough": 1500}
 ANCHORS = ["PathSegment.bbox", "Move.bbox", "QuadraticBezier.bbox", "CubicBezier.bbox", "CubicBezier._real_minmax", "Arc.bbox", "Shape.bbox",
            "Subpath.bbox", "Group.union_bbox", "Group.bbox", "GraphicObject.implicit_stroke_width"]
 REQUIRED_MONITORS = ["segment-box", "path-box", "shape-box", "shape-box-from-attributes", "stroke-box", "group-box", "subpath-box"]
